@@ -1734,12 +1734,29 @@ class PyCdlib:
         self._find_rr_record.cache_clear()  # pylint: disable=no-member
         self._find_joliet_record.cache_clear()  # pylint: disable=no-member
 
+        num_bytes_to_remove = 0
+
         # The remove_child() method returns True if the parent no longer needs
         # the extent that the directory record for this child was on.
         if child.parent.remove_child(child, index, self.logical_block_size):
-            return self.logical_block_size
+            num_bytes_to_remove += self.logical_block_size
 
-        return 0
+        # Give back the Rock Ridge continuation area of the record, and the
+        # whole continuation block once nothing is left in it; a block that no
+        # record uses is not laid out, so it must not be counted either.
+        rr = child.rock_ridge
+        if rr is not None and rr.dr_entries.ce_record is not None and rr.ce_block is not None:
+            rr.ce_block.remove_entry(rr.dr_entries.ce_record.offset_cont_area,
+                                     rr.dr_entries.ce_record.len_cont_area)
+            if rr.ce_block.is_empty():
+                for index, block in enumerate(self.pvd.rr_ce_blocks):
+                    if block is rr.ce_block:
+                        del self.pvd.rr_ce_blocks[index]
+                        num_bytes_to_remove += self.logical_block_size
+                        break
+            rr.ce_block = None
+
+        return num_bytes_to_remove
 
     def _add_to_ptr_size(self, ptr):
         # type: (path_table_record.PathTableRecord) -> int
@@ -5046,10 +5063,6 @@ class PyCdlib:
                 # We do not remove additional space from the PVD for the
                 # child_link record because it is a 'fake' record that has no
                 # size.
-
-            if child.rock_ridge is not None and child.rock_ridge.dr_entries.ce_record is not None and child.rock_ridge.ce_block is not None:
-                child.rock_ridge.ce_block.remove_entry(child.rock_ridge.dr_entries.ce_record.offset_cont_area,
-                                                       child.rock_ridge.dr_entries.ce_record.len_cont_area)
 
         if joliet_path is not None:
             num_bytes_to_remove += self._rm_joliet_dir(self._normalize_joliet_path(joliet_path))
